@@ -180,3 +180,39 @@ Definition gm_spec (a : gm_arg) : gm_spec_res :=
   | GM_GetVerifyingPredicate => GmPredicateIndex
   | GM_IsCallerExternal | GM_GetCaller => GmInternalOnly
   end.
+
+(* ---------------------------------------------------------------- the owner of a transaction *)
+(* "GM GetOwner": the owner of the input the Owner policy points at, if that policy is set;
+   otherwise the owner shared by all inputs that have one (coin owner / message recipient),
+   unknown if they differ or there is none *)
+Definition owner_of_input (iv : val) : option val :=
+  match iv with
+  | VE j [x] =>
+      let t := input_sel j S_CoinSigned S_CoinPredicate S_input_Contract S_MessageCoinSigned
+                         S_MessageCoinPredicate S_MessageDataSigned S_MessageDataPredicate in
+      if mem_nat j [0; 1]%nat then struct_field "owner" t x
+      else if mem_nat j [3; 4; 5; 6]%nat then struct_field "recipient" t x else None
+  | _ => None
+  end.
+Definition owner_spec (k : kind) (v : val) : option (nat * val) :=
+  let ins := fields_of (kind_ty k) v "inputs" in
+  let pol := match struct_field "policies" (kind_ty k) v with Some p => p | None => VUnit end in
+  match pol with
+  | VS (VN bits :: vs) =>
+      if N.testbit bits 5 then
+        match nth 5 vs VUnit with
+        | VN i => match nth_small ins i with
+                  | Some (j, iv) => match owner_of_input iv with Some o => Some (j, o) | None => None end
+                  | None => None
+                  end
+        | _ => None
+        end
+      else
+        let owners := flat_map (fun p => match owner_of_input (snd p) with Some o => [(fst p, o)] | None => [] end)
+                               (combine (seq 0 (length ins)) ins) in
+        match owners with
+        | [] => None
+        | (j, o) :: r => if forallb (fun q => val_eqb (snd q) o) r then Some (j, o) else None
+        end
+  | _ => None
+  end.
